@@ -55,10 +55,15 @@ static inline int post_verif_compute_strides(sv_t shape, sv_t ret)
 }
 
 /* ---- product(shape) */
+GHOST_ARR(unsigned long, PR, 10)
 static inline int pre_verif_product(sv_t shape)
-{ return SV_LEN(shape) <= CAP; }
+{
+  int ok = SV_LEN(shape) <= CAP && GHOST_DEF(PR[0], 1UL);
+  for (unsigned long j = 0; j < CAP; j++) ok = ok && GHOST_DEF(PR[j + 1], MUL_ul(PR[j], SV_AT(shape, j)));
+  return ok;
+}
 static inline int post_verif_product(sv_t shape, unsigned long ret)
-{ return ret == spec_prod(shape, 0, SV_LEN(shape)); }
+{ return ret == PR[SV_LEN(shape)] && ret == spec_prod(shape, 0, SV_LEN(shape)); }
 
 /* ---- compute_offset(indices,strides) == sum strides[i]*indices[i] */
 static inline int pre_verif_compute_offset(sv_t indices, sv_t strides)
@@ -87,3 +92,43 @@ static inline int post_verif_compute_indices3(unsigned long offset, sv_t shape, 
   return SV_LEN(ret) == SV_LEN(shape)
       && IMPLIES(g < SV_LEN(shape), SV_AT(ret, g) == EI[g] && SV_AT(ret, g) < SV_AT(shape, g));
 }
+
+/* ---- ndindex(shape)[i] : the i-th multi-index in row-major order = [(i / stride_t) % shape_t]_t ; size() = element count */
+static inline int pre_verif_ndindex_at(sv_t shape, unsigned long i)
+{
+  int ok = SV_LEN(shape) <= CAP && trace_HP(shape);
+  for (unsigned long t = 0; t < CAP; t++)
+    if (t < SV_LEN(shape)) {
+      ok = ok && SV_AT(shape, t) >= 1UL && HP(t, SV_LEN(shape)) >= 1UL;   /* stride >= 1: true when no extent is 0 and the product does not wrap */
+      ok = ok && GHOST_DEF(EI[t], MOD_ul(DIV_ul(i, HP(t, SV_LEN(shape))), SV_AT(shape, t)));
+    }
+  return ok;
+}
+static inline int post_verif_ndindex_at(sv_t shape, unsigned long i, sv_t ret)
+{
+  return SV_LEN(ret) == SV_LEN(shape)
+      && IMPLIES(g < SV_LEN(shape), SV_AT(ret, g) == EI[g] && SV_AT(ret, g) < SV_AT(shape, g)
+                                    && SV_AT(ret, g) == MOD_ul(DIV_ul(i, spec_prod(shape, g + 1, SV_LEN(shape))), SV_AT(shape, g)));
+}
+static inline int pre_verif_ndindex_size(sv_t shape) { return pre_verif_product(shape) && trace_HP(shape); }
+static inline int post_verif_ndindex_size(sv_t shape, unsigned long ret) { return post_verif_product(shape, ret); }
+
+/* ---- bounded bit-precise cross-check of the Lean lemma L1 (lemmas/MixedRadix.lean) against these C spec functions:
+ *      rank <= 3, extents 1..6: offset(indices(o)) == o for o < prod, indices in bounds. Labelled bounded. */
+#ifndef VERIF_NATIVE
+static inline int lemma_roundtrip_small(sv_t shape, unsigned long o)
+{
+  if (!(SV_LEN(shape) <= 3)) return 1;
+  for (unsigned long k = 0; k < 3; k++) if (k < SV_LEN(shape) && !(SV_AT(shape, k) >= 1 && SV_AT(shape, k) <= 6)) return 1;
+  unsigned long n = spec_prod(shape, 0, SV_LEN(shape));
+  if (!(o < n)) return 1;
+  sv_t idx, str; idx.size_ = SV_LEN(shape); str.size_ = SV_LEN(shape);
+  int ok = 1;
+  for (unsigned long k = 0; k < 3; k++) if (k < SV_LEN(shape)) {
+    str.buffer.buffer[k] = spec_prod(shape, k + 1, SV_LEN(shape));
+    idx.buffer.buffer[k] = (o / str.buffer.buffer[k]) % SV_AT(shape, k);
+    ok = ok && idx.buffer.buffer[k] < SV_AT(shape, k);
+  }
+  return ok && spec_offset(idx, str) == o;
+}
+#endif
